@@ -319,7 +319,8 @@ def run_shard(item):
             seed_text = (seeds.K_DOCS + seeds.K_MUTATIONS + ARG_DOCS)[si]
             depth = 1
             for d, level, trail, stats in explore.bfs(schema, doc.parse(seed_text), depth):
-                text, located = doc.roundtrip(d)
+                # every other seed is laid out over several lines: error locations are (line, column) pairs
+                text, located = doc.roundtrip(d, pretty=(si % 2 == 1))
                 ops = located.operations
                 names = [o.name for o in ops] if len(ops) > 1 else [ops[0].name]
                 for opn in names:
